@@ -438,6 +438,19 @@ def c09_cells(tier="quick"):
         {"id": "u0", "kind": "TaskUnloadBuffer", "task": "t0", "buffer": "b1", "quantity": 1},
         {"id": "l0", "kind": "TaskLoadBuffer", "task": "t0", "buffer": "b2", "quantity": 1},
         {"id": "u1", "kind": "TaskUnloadBuffer", "task": "t1", "buffer": "b2", "quantity": 1}])))
+    # a load and an unload of the SAME quantity: when they coincide the level does not move at that instant (still an
+    # access instant of the report), and three accesses of which two cancel out
+    for conc in (False, True):
+        ctag = "conc" if conc else "nonconc"
+        cells.append((f"{ctag}.cancel.UL", base(4, [fx("t0", 2), vr("t1", 1, 2)], buffers=[
+            {"name": "bf", "concurrent": conc, "initial": 3, "lower": 0}], constraints=[
+            {"id": "u0", "kind": "TaskUnloadBuffer", "task": "t0", "buffer": "bf", "quantity": 2},
+            {"id": "l1", "kind": "TaskLoadBuffer", "task": "t1", "buffer": "bf", "quantity": 2}])))
+        cells.append((f"{ctag}.cancel.ULU", base(4, [fx("t0", 1), fx("t1", 1), fx("t2", 1)], buffers=[
+            {"name": "bf", "concurrent": conc, "initial": 4, "lower": 0}], constraints=[
+            {"id": "u0", "kind": "TaskUnloadBuffer", "task": "t0", "buffer": "bf", "quantity": 3},
+            {"id": "l1", "kind": "TaskLoadBuffer", "task": "t1", "buffer": "bf", "quantity": 3},
+            {"id": "u2", "kind": "TaskUnloadBuffer", "task": "t2", "buffer": "bf", "quantity": 1}])))
     # equal quantities in the same direction (the array / function encodings cannot tell the two accesses apart),
     # with and without an OPTIONAL accessing task next to them
     for conc in (False, True):
